@@ -55,7 +55,11 @@ func (s *Translator) translateWith() error {
 		if s.query.CurrentPart().quantifierIdentifiers != nil && s.query.CurrentPart().quantifierIdentifiers.Len() > 0 {
 			set = set.MergeSet(s.query.CurrentPart().quantifierIdentifiers)
 		}
-		if projectionConstraint, err := s.treeTranslator.ConsumeConstraintsFromVisibleSet(set); err != nil {
+		if currentPart.Skip != nil || currentPart.Limit != nil {
+			// The WHERE of a WITH filters the rows that remain after SKIP and LIMIT. It must not be evaluated
+			// inside the select that carries OFFSET and LIMIT; the constraints stay with the tracker and are
+			// consumed by the next query part, which reads the rows this WITH projects.
+		} else if projectionConstraint, err := s.treeTranslator.ConsumeConstraintsFromVisibleSet(set); err != nil {
 			return err
 		} else if resolvedConstraint, err := resolvePathCompositeFieldReferences(s.scope, projectionConstraint.Expression); err != nil {
 			return err
